@@ -59,7 +59,7 @@ V_ENSURES(g.reset_calls == V_OLD(g.reset_calls) + 1 && g_recvs->len == 0 && g_re
  * (callback frame), it reports -ENOENT exactly when the module was deregistered inside, -1 exactly for a false start/eval */
 V_CONTRACT
 static int optional_hook(m_mod_t *mod, enum mod_hook req_hook)
-V_REQUIRES(mod == g_mod && V_MOD_OK && V_INV && (g_ctx->curr_mod == NULL || g_ctx->curr_mod == g_mod))                                        /*@C01.running-count-exact-before-callback*/
+V_REQUIRES(mod == g_mod && V_MOD_OK && V_INV && (g_ctx->curr_mod == NULL || g_ctx->curr_mod == g_mod))                                        /*@C01.running-count-exact-before-callback*/ /*@C03.loop-exit-condition-counts-exactly-the-running-modules*/
 V_ASSIGNS(V_CB_FRAME, V_G_HOOK)
 /* the context's current module is what it was before: a nested callback (e.g. stop called from inside a handler) must not
  * end the outer callback's status as current module (deny-context flag is enforced through it) */
@@ -85,7 +85,7 @@ V_REQUIRES(v_base_ok() && mod == g_mod && V_MOD_OK && V_INV && (g_ctx->curr_mod 
 /* documented edges: pause only from RUNNING; stop from RUNNING or PAUSED (deregistration may stop any non-zombie state: one edge old -> ZOMBIE) */
 V_REQUIRES(stopping || g_mod->state == M_MOD_RUNNING)                                                                                       /*@C01.pause-only-from-running*/
 V_ASSIGNS(V_STOP_FRAME)
-V_ENSURES(V_MOD_OK && V_INV && g_ctx->curr_mod == V_OLD(g_ctx->curr_mod))                                                                         /*@C01.running-count-equals-running-modules*/
+V_ENSURES(V_MOD_OK && V_INV && g_ctx->curr_mod == V_OLD(g_ctx->curr_mod))                 /*@C01.running-count-equals-running-modules*/ /*@C03.loop-exit-condition-counts-exactly-the-running-modules*/                                                                         /*@C01.running-count-equals-running-modules*/
 V_ENSURES(V_IMP(g_ms_ret != 0, V_RET == g_ms_ret && g_mod->state == V_OLD(g_mod->state) && g.on_stop_calls == V_OLD(g.on_stop_calls) && g.sys_msgs == V_OLD(g.sys_msgs) && g.reset_calls == V_OLD(g.reset_calls)))
 V_ENSURES(g.on_eval_calls == V_OLD(g.on_eval_calls) && g.ms_calls == V_OLD(g.ms_calls) + 1 && g.ms_flag == RM && g.ms_stop == stopping && g.ips_calls == V_OLD(g.ips_calls))
 /* pause: RUNNING -> PAUSED, neither callback runs, sources kept, one MOD_STOPPED notification naming the module */
@@ -107,7 +107,7 @@ V_REQUIRES(v_base_ok() && mod == g_mod && V_MOD_OK && V_INV && (g_ctx->curr_mod 
 /* documented edges: start from IDLE or STOPPED, resume from PAUSED */
 V_REQUIRES(starting ? (g_mod->state == M_MOD_IDLE || g_mod->state == M_MOD_STOPPED) : g_mod->state == M_MOD_PAUSED)                          /*@C01.start-only-from-idle-stopped-resume-only-from-paused*/
 V_ASSIGNS(V_STOP_FRAME)
-V_ENSURES(V_MOD_OK && V_INV && g_ctx->curr_mod == V_OLD(g_ctx->curr_mod))                                                                       /*@C01.running-count-equals-running-modules*/
+V_ENSURES(V_MOD_OK && V_INV && g_ctx->curr_mod == V_OLD(g_ctx->curr_mod))                 /*@C01.running-count-equals-running-modules*/ /*@C03.loop-exit-condition-counts-exactly-the-running-modules*/                                                                       /*@C01.running-count-equals-running-modules*/
 /* environment failure (pipe / poll registration): error, state unchanged, no callback, no notification */
 V_ENSURES(V_IMP((starting && g_ips_ret != 0) || g_ms_ret != 0, V_RET != 0 && g_mod->state == V_OLD(g_mod->state) && g.on_start_calls == V_OLD(g.on_start_calls)
                 && g.sys_msgs == V_OLD(g.sys_msgs)))
